@@ -188,11 +188,20 @@ func (d *DBFT[H]) sendCommit() {
 func (d *DBFT[H]) sendRecoveryRequest() {
 	// If we're here, something is wrong, we either missing some messages or
 	// transactions or both, so re-request missing transactions here too.
+	var completed bool
 	if d.RequestSentOrReceived() && !d.hasAllTransactions() {
 		d.processMissingTx()
+		completed = d.hasAllTransactions()
 	}
 	req := d.NewRecoveryRequest(uint64(d.Timer.Now().UnixNano()))
 	d.broadcast(d.NewConsensusPayload(&d.Context, RecoveryRequestType, req))
+
+	// Everything can be found in the pool by now, the proposal has to be
+	// checked and answered then the same way it's done for the last
+	// transaction received via OnTransaction.
+	if completed && !d.ResponseSent() && !d.PreCommitSent() && !d.CommitSent() {
+		d.onProposalCompleted()
+	}
 }
 
 func (c *Context[H]) makeRecoveryMessage() ConsensusPayload[H] {
